@@ -20,6 +20,8 @@ import (
 	"testing"
 
 	kit "verifkit"
+
+	"pgregory.net/rapid"
 )
 
 const c26SrvRule = "the C25 live two-session server workload (remote scripts + API readers/writers in 3-8 goroutines) under the race detector; non-trivial = round in which an API operation overlapped a session event"
@@ -51,14 +53,14 @@ func TestVerifC26ChildServer(t *testing.T) {
 	}
 }
 
-func c26SrvRunChild(t *testing.T, test, tag string) {
+func c26SrvRunChild(t *testing.T, test, tag string, extra ...string) {
 	rec := kit.NewRecorder(t, "C26", "")
 	work := os.Getenv("VERIF_WORK")
 	if work == "" {
 		work = t.TempDir()
 	}
 	prefix := filepath.Join(work, "c26race-"+tag)
-	cmd := exec.Command(os.Args[0], "-test.run", "^"+test+"$", "-test.count", "1", "-test.timeout", "0")
+	cmd := exec.Command(os.Args[0], append([]string{"-test.run", "^" + test + "$", "-test.count", "1", "-test.timeout", "0"}, extra...)...)
 	cmd.Env = append(os.Environ(), "VERIF_C26_CHILD=1", "GORACE=halt_on_error=0 history_size=5 log_path="+prefix)
 	out, err := cmd.CombinedOutput()
 	_ = os.WriteFile(filepath.Join(work, "c26child-"+tag+".txt"), out, 0o644)
@@ -124,4 +126,24 @@ func TestVerifC26Server(t *testing.T) {
 		t.Skip("parent only")
 	}
 	c26SrvRunChild(t, "TestVerifC26ChildServer", "server")
+}
+
+// Second workload: two consecutive sessions on one FSM address family (the C10 two-session machine: real init()
+// / dispose(), the connection swapped in between as connectState does) under the race detector. What the
+// teardown of the first session leaves running must not touch what the second session sets up.
+func TestVerifC26ChildSessions(t *testing.T) {
+	if os.Getenv("VERIF_C26_CHILD") == "" {
+		t.Skip("runs as child of TestVerifC26Sessions")
+	}
+	c10InstallLogger()
+	rec := kit.NewRecorder(t, "C26", "two consecutive sessions (init / dispose / new connection / init) of one FSM address family with Loc-RIB changes before, between and after, under the race detector; non-trivial = a route was added within the aggregation interval before the first session ended")
+	n := 0
+	rapid.Check(t, c10SecondSessionProp(rec, &n))
+}
+
+func TestVerifC26Sessions(t *testing.T) {
+	if os.Getenv("VERIF_C26_CHILD") != "" {
+		t.Skip("parent only")
+	}
+	c26SrvRunChild(t, "TestVerifC26ChildSessions", "sessions", fmt.Sprintf("-rapid.checks=%d", kit.Scale(500, 3000)), fmt.Sprintf("-rapid.seed=%d", kit.Seed()+1))
 }
